@@ -835,7 +835,9 @@ Proof.
                    | Some sa =>
                        if match chosen with Some s => str_eqb (fst kw) s | None => false end
                           || mem_str (fst kw) (discarded md sb l)
-                       then [] else map (cons (K (fst kw))) (nest_missing sa (snd kw))
+                       then [] else map (cons (K (fst kw)))
+                                        ((if match snd kw with CDict _ => negb (leafless (snd kw)) | _ => false end
+                                          then flat_missing sa (snd kw) else []) ++ nest_missing sa (snd kw))
                    | None => []
                    end) l = []).
     { apply flat_map_nil. intros [k w] HIn. simpl.
@@ -846,11 +848,19 @@ Proof.
       { intros X. subst k. apply mem_assoc_some in Em. rewrite (wf_dest_sub _ _ W Hs) in Em. discriminate. }
       assert (In (k, w) l') as HIn' by (rewrite Hl'; apply in_select; auto).
       pose proof (top_entries _ _ _ _ _ Hs H1 k w HIn') as FE.
+      assert (Ed : str_eqb k (s_dest sb) = false)
+        by (destruct (str_eqb k (s_dest sb)) eqn:E; [apply str_eqb_spec in E; contradiction|reflexivity]).
       destruct (is_dict w) eqn:D.
-      - rewrite (walk_nm (schk fuel) (schk_nm fuel) w sa None (Some k) [k]); [reflexivity|].
-        eapply top_entry_section; eauto.
-        destruct (str_eqb k (s_dest sb)) eqn:E; [apply str_eqb_spec in E; contradiction|reflexivity].
-      - rewrite nm_not_dict; auto. }
+      - rewrite (walk_nm (schk fuel) (schk_nm fuel) w sa None (Some k) [k]) by (eapply top_entry_section; eauto).
+        rewrite app_nil_r.
+        destruct w as [| | |lw|]; try discriminate.
+        destruct (leafless (CDict lw)) eqn:L; [reflexivity|]. cbv beta iota. simpl negb. cbv iota.
+        unfold top_entry in FE. rewrite Ed, Em in FE. simpl is_dict in FE. cbv iota in FE.
+        rewrite has_leaf_leafless, L in FE. simpl negb in FE. cbv iota in FE.
+        apply Forall_app in FE. destruct FE as [FE _]. inversion FE; subst.
+        unfold ev_ok in H4. simpl in H4. apply bind_ok in H4. destruct H4 as [_ H4].
+        rewrite (check_required1_flat _ _ _ H4). reflexivity.
+      - rewrite nm_not_dict by auto. destruct w; try discriminate; reflexivity. }
     rewrite G4, app_nil_r.
     (* (3) the subcommand in force *)
     destruct chosen as [s|].
